@@ -13,7 +13,7 @@ class ntos3:
     returns = Str
     ensures = {"function-of-the-number": lambda n, result: result == ufn("ntos_round3", "str", n)}
     native = False
-    note = "text of round(n, 3)"
+    note = "text of round(n, 3); conformance-checked natively by c_conformance.ntos_conformance"
 
 
 REUSE = Record("nanoemoji.glyph_reuse.ReuseResult")
@@ -107,7 +107,7 @@ class color_to_string:
     returns = Str
     ensures = {"function-of-the-colour": lambda self, result: result == ufn("css_colour", "str", self.red, self.green, self.blue, self.alpha)}
     native = False
-    note = "CSS text of the colour"
+    note = "CSS text of the colour; conformance-checked natively by c_conformance.colour_text_conformance (reads back as the same colour)"
 
 
 @contract("picosvg.svg_transform.Affine2D.tostring", props=["C02", "C13"], dep=True)
